@@ -297,9 +297,9 @@ def manObj (g : GlobalConfig) : AObj → M Object
         address := address, sizeBits := size, reset := reset, repeat_ := rep, fields := fs }
     pure (.register r)
   | .command c _ address bo bito si so rep abo aao fin fout => do
+    let address ← checkAddr address
     let i ← (fin.getD []).mapM (manField g)
     let o ← (fout.getD []).mapM (manField g)
-    let address ← checkAddr address
     let si ← checkU32 (si.getD 0)
     let so ← checkU32 (so.getD 0)
     let rep ← checkRepeat rep
